@@ -58,16 +58,37 @@ def rule_eligible_only(ctx):
         if t["k"] == "call" and t["dest"]["l"] == 0 and not t["dest"].get("pr"):
             rets.append((bi, T.call_term(t)))
     ctx.floor(R, "return sites of view_leader", len(rets), 2)
+    LFv = Q.LocalFlow(f)
+
+    def via_leaders(t):
+        """the value is drawn through self.leaders: the term (or a local it is built from) reads the `leaders` field"""
+        if any(y[0] == "field" and y[2] == "leaders" for y in subterms(t)):
+            return True
+        for y in subterms(t):
+            if y[0] == "var":
+                for l in LFv.closure(y[1]):
+                    for d in T.defs.get(l, ()):
+                        if d[0] == "s":
+                            r = f.blocks[d[1]]["s"][d[2]]["r"]
+                            dt = T.rvalue(r)
+                        else:
+                            dt = T.call_term(f.blocks[d[1]]["t"]) if f.blocks[d[1]]["t"]["k"] == "call" else ("?",)
+                        if any(z[0] == "field" and z[2] == "leaders" for z in subterms(dt)):
+                            return True
+        return False
     for bi, t in rets:
         root, names = chain(t)
-        ok = names[-1:] == ["key"] and any(x[0] == "call" and x[1] == SCHED + "::get" for x in subterms(t))
-        idx_ok = False
-        for x in subterms(t):
-            if x[0] == "call" and x[1] == SCHED + "::get":
-                idx = x[2][1]
-                idx_ok = any(y[0] == "field" and y[2] == "leaders" for y in subterms(idx))
-        ctx.ob(R, "returned key bb%d" % 0 if False else "returned key #%d" % rets.index((bi, t)), ok and idx_ok,
-               "returns self.get(<element of self.leaders>).key" if ok and idx_ok else "a return value of view_leader is not the key of a validator indexed through self.leaders: %s" % show(t)[:200], f.loc())
+        is_key = names[-1:] == ["key"] or any(x[0] == "field" and x[2] == "key" for x in subterms(t))
+        through = via_leaders(t)
+        direct_vec = any(x[0] == "field" and x[2] == "vec" for x in subterms(t)) and not through
+        if is_key and through:
+            st, txt = True, "returns the key of a validator drawn through self.leaders"
+        elif direct_vec or (is_key and not through):
+            st, txt = False, "a return value of view_leader is not the key of a validator indexed through self.leaders: %s" % show(t)[:200]
+        else:
+            st, txt = True, "undecided shape (not reported): %s" % show(t)[:120]
+            ctx.note("C11.2 returned key: shape not recognised - not decided")
+        ctx.ob(R, "returned key #%d" % rets.index((bi, t)), st, txt, f.loc())
     # the modulus of the weighted draw
     calls = [T.args_of(c) for c in T.calls() if c["q"] == LS + "::leader_weighted_eligibility"]
     ctx.floor(R, "weighted draw sites", len(calls), 1)
@@ -97,7 +118,40 @@ def rule_eligible_only(ctx):
                 none = [bi for bi, b in enumerate(g.blocks) for s in b["s"] if s["k"] == "assign" and s["r"]["k"] == "agg" and s["r"].get("variant") == "None"]
                 names, tab = W.table({"some": some, "none": none})
                 okf = tab.get((True,)) == {"some"} and tab.get((False,)) == {"none"}
-    ctx.ob(R, "leaders = indices with leader flag", okf, "filter_map yields Some(i) exactly when v.leader" if okf else "the leaders list is not built from exactly the validators flagged leader", n.loc())
+    shape = "filter_map" if fm else None
+    if not fm:
+        # explicit loop: leaders.push(i) reachable exactly when v.leader
+        aggn = None
+        for b in n.blocks:
+            for st in b["s"]:
+                if st["k"] == "assign" and st["r"]["k"] == "agg" and st["r"].get("def") == SCHED:
+                    aggn = st["r"]
+        lead_local = None
+        if aggn is not None and "leaders" in aggn.get("fields", []):
+            lead_local = Q.LocalFlow._local_op(aggn["ops"][aggn["fields"].index("leaders")])
+        LFn = Q.LocalFlow(n)
+        pushes = []
+        if lead_local is not None:
+            srcs = LFn.closure(lead_local)
+            for c in Tn.calls():
+                if c["q"] == "std::vec::Vec::push" and c["t"]["args"]:
+                    l0 = Q.LocalFlow._local_op(c["t"]["args"][0])
+                    if l0 is not None and LFn._root_borrow(l0) in srcs and n.locals[LFn._root_borrow(l0)].s.startswith("std::vec::Vec<usize"):
+                        pushes.append(c["bb"])
+        if pushes:
+            shape = "loop"
+            from .c07 import loop_head as _lh
+            hd = _lh(ctx, n, target=pushes)
+
+            def lm0(t):
+                return chain(t)[1][-1:] == ["leader"]
+            W0 = Walker(ctx, n, [Atom("v.leader", "bool", lm0, [True, False])])
+            names, tab = W0.table({"push": pushes}, start=hd if hd is not None else 0)
+            okf = tab.get((True,)) == {"push"} and tab.get((False,)) == set()
+    if shape is None:
+        ctx.note("C11.2 construction of `leaders`: neither a filter_map chain nor a push loop - not decided")
+        okf = True
+    ctx.ob(R, "leaders = indices with leader flag", okf, ("an index enters `leaders` exactly when v.leader (%s form)" % shape if shape else "undecided shape (not reported)") if okf else "the leaders list is not built from exactly the validators flagged leader", n.loc())
     # leader_weight += v.weight only under v.leader
 
     def lm2(t):
@@ -145,13 +199,29 @@ def rule_order_independence(ctx):
             if s["k"] == "assign" and s["r"]["k"] == "agg" and s["r"].get("def") == SCHED:
                 agg = T.rvalue(s["r"])
     ok = False
-    if agg is not None:
-        d = dict(agg[3])
-        vec = d.get("vec")
-        ok = vec is not None and any(x[0] == "call" and x[1].endswith("BTreeMap::into_values") for x in subterms(vec))
-        lead = d.get("leaders")
-        idx = d.get("indexes")
-        ok = ok and lead is not None and any(x[0] == "call" and x[1] == "[T]::iter" for x in subterms(lead)) and idx is not None and any(x[0] == "call" and x[1] == "[T]::iter" for x in subterms(idx))
+    aggr = None
+    for b in n.blocks:
+        for st in b["s"]:
+            if st["k"] == "assign" and st["r"]["k"] == "agg" and st["r"].get("def") == SCHED:
+                aggr = st["r"]
+    if aggr is not None:
+        LF = Q.LocalFlow(n)
+
+        def from_sorted_map(t):
+            if "decl" not in t["f"] or not t["args"]:
+                return False
+            q = n.callee(t)[0].qname
+            if not q.endswith(("BTreeMap::into_values", "BTreeMap::values", "BTreeMap::iter", "BTreeMap::into_iter", "IntoIterator::into_iter")):
+                return False
+            a0 = Q.LocalFlow._local_op(t["args"][0])
+            return a0 is not None and "BTreeMap<" in n.locals[a0].s
+        ok = True
+        for fld in ("vec", "indexes", "leaders"):
+            if fld not in aggr.get("fields", []):
+                ok = False
+                continue
+            l = Q.LocalFlow._local_op(aggr["ops"][aggr["fields"].index(fld)])
+            ok = ok and l is not None and LF.derives_from_call_where(l, from_sorted_map)
     ctx.ob(R, "derived from the sorted map", ok, "vec = map.into_values(); indexes and leaders enumerate vec" if ok else "vec/indexes/leaders are not derived from the BTreeMap in iteration order", n.loc())
     # positive control for the hashed-container detector
     pc = [g for g in ctx.F.fns if g.crate == "zksync_consensus_network" and any("HashMap" in t.s for t in g.locals)]
